@@ -24,12 +24,12 @@ type lpItem struct {
 	Kind   string `json:"kind"` // loginack | msg | paramfmt | params | done | capability | env | info | eed | other
 	Hex    string `json:"hex,omitempty"`
 	B      []byte `json:"-"`
-	Status int    `json:"status,omitempty"`  // loginack status / done status
-	MsgID  int    `json:"msg_id,omitempty"`  // msg
-	Cols   []int  `json:"cols,omitempty"`    // paramfmt/params: data type per column
-	Cipher int    `json:"cipher,omitempty"`  // params
-	Key    string `json:"key,omitempty"`     // params: valid | garbage | pkix | trailing | empty | no-pem-end
-	Caps   string `json:"caps,omitempty"`    // capability: ok | all-zero | request-zero
+	Status int    `json:"status,omitempty"` // loginack status / done status
+	MsgID  int    `json:"msg_id,omitempty"` // msg
+	Cols   []int  `json:"cols,omitempty"`   // paramfmt/params: data type per column
+	Cipher int    `json:"cipher,omitempty"` // params
+	Key    string `json:"key,omitempty"`    // params: valid | garbage | pkix | trailing | empty | no-pem-end
+	Caps   string `json:"caps,omitempty"`   // capability: ok | all-zero | request-zero
 	Note   string `json:"note,omitempty"`
 }
 
